@@ -18,15 +18,31 @@ def is_state(e):
     return e == ('field', ('path', ['self']), 'state')
 
 class Tx:
-    def __init__(self):
+    FNS = {}           # every function of tracer.rs that mentions `self.state`, by name
+
+    def __init__(self, stack=()):
+        self.stack = list(stack)
         self.prog = []
         self.guards = {}   # let-bound guard name -> kind
+        self.dropped = []  # guards released early with `drop(..)`
+
+    @staticmethod
+    def is_guard(v):
+        return bool(v) and v[0] == 'guard'
 
     def expr(self, e, pending):
         """walk expression; `pending` collects temporaries' releases for the enclosing statement"""
         k = e[0]
         if k == 'method':
             recv, name, args = e[1], e[2], e[3]
+            # a call of another function that works on the shared state: its program runs here
+            if recv == ('path', ['self']) and name in Tx.FNS and name not in self.stack:
+                for a in args:
+                    self.expr(a, pending)
+                inner = Tx(self.stack + [name])
+                inner.block(parse_body(Tx.FNS[name]['body']))
+                self.prog += inner.prog
+                return None
             # self.state.read() / write()
             if is_state(recv) and name in ('read', 'write'):
                 self.prog.append('acqR' if name == 'read' else 'acqW')
@@ -34,7 +50,8 @@ class Tx:
                 return ('guard', name)
             r = self.expr(recv, pending)
             for a in args:
-                self.expr(a, pending)
+                if self.is_guard(self.expr(a, pending)):
+                    raise Unsupported(f'a state guard is passed to method {name}')
             if r and r[0] == 'guard':
                 if name not in METHOD:
                     raise Unsupported(f'method {name} called through a state guard')
@@ -49,11 +66,32 @@ class Tx:
             raise Unsupported('self.state used without read()/write()')
         if k in ('call',):
             self.expr(e[1], pending)
-            for a in e[2]:
-                self.expr(a, pending)
+            vals = [self.expr(a, pending) for a in e[2]]
+            fn = e[1][1] if e[1][0] == 'path' else None
+            if any(self.is_guard(v) for v in vals):
+                # the guard handed to a function: only the fully-qualified forms of the known methods
+                if fn is not None and len(e[2]) >= 1 and self.is_guard(vals[0]) and not any(self.is_guard(v) for v in vals[1:]) \
+                        and fn[-1] in METHOD and (len(fn) == 1 or fn[-2] in ('State', 'Clone')):
+                    self.prog.append(METHOD[fn[-1]])
+                    return None
+                if fn == ['drop'] and len(e[2]) == 1 and e[2][0][0] == 'path' and len(e[2][0][1]) == 1:
+                    # `drop(guard)`: released here instead of at the end of the block
+                    name = e[2][0][1][0]
+                    self.guards.pop(name, None)
+                    self.dropped.append(name)
+                    self.prog.append('rel')
+                    return None
+                raise Unsupported(f'a state guard is passed to {"::".join(fn) if fn else "a function value"}')
             return None
-        if k in ('field', 'paren', 'ref', 'try', 'cast', 'un'):
-            self.expr(e[1] if k != 'un' else e[2], pending)
+        if k == 'block':
+            self.block(e)
+            return None
+        if k in ('paren', 'ref'):
+            # `&guard`, `(guard)`: still the guard
+            return self.expr(e[1], pending)
+        if k in ('field', 'try', 'cast', 'un'):
+            if self.is_guard(self.expr(e[1] if k != 'un' else e[2], pending)):
+                raise Unsupported(f'`{k}` applied to a state guard')
             return None
         if k == 'deref':
             return self.expr(e[1], pending)
@@ -75,10 +113,13 @@ class Tx:
             pending = []
             if st[0] == 'let':
                 r = self.expr(st[3], pending) if st[3] is not None else None
-                if r and r[0] == 'guard' and len(st[1][1]) == 1:
-                    # guard bound to a name: lives to the end of the block
-                    self.guards[st[1][1][0]] = r[1]
-                    lets.append('rel')
+                if r and r[0] == 'guard':
+                    names = [t for t in st[1][1] if t not in ('mut', 'ref')]
+                    if len(names) != 1 or not names[0].isidentifier():
+                        raise Unsupported(f'a state guard is bound to the pattern `{" ".join(st[1][1])}`')
+                    # guard bound to a name: lives to the end of the block (or to `drop(name)`)
+                    self.guards[names[0]] = r[1]
+                    lets.append(names[0])
                     pending.remove('rel')
                 self.prog += pending
             elif st[0] == 'assign':
@@ -99,7 +140,12 @@ class Tx:
             pending = []
             self.expr(b[2], pending)
             self.prog += pending
-        self.prog += lets
+        # let-bound guards die here, innermost last-declared first (unless dropped before)
+        for name in reversed(lets):
+            if name in self.dropped:
+                continue
+            self.guards.pop(name, None)
+            self.prog.append('rel')
 
 def main():
     repo, outdir = sys.argv[1], sys.argv[2]
@@ -110,12 +156,13 @@ def main():
             fns[it['name']] = it
     problems = []
     progs = {}
+    Tx.FNS = dict(fns)
     for f in FUNCS:
         if f not in fns:
             problems.append(f'function {f} not found in tracer.rs')
             continue
         try:
-            tx = Tx()
+            tx = Tx([f])
             tx.block(parse_body(fns[f]['body']))
             progs[f] = tx.prog
         except Unsupported as ex:
